@@ -396,6 +396,7 @@ type Exec struct {
 	idleHook value
 	inHook   bool
 	co       *coopState
+	panicStack string
 	interp   *interpreter
 	model    map[string]uint64 // an assignment known to satisfy pc (nil if none is known)
 	redir    map[string]*ssa.Function
